@@ -7,6 +7,10 @@ HOOK_COMMITS = subprocess.run(
     capture_output=True, text=True).stdout.strip().splitlines()
 
 CHECKS = {
+ "C02": dict(level="fault_enumeration", ref="DESIGN.md §3 C02",
+   technique="runtime monitoring with fault injection: every message of a corrupted party altered by tree-mutation classes or consistent lies through taps; honest return values checked against the exhaustively enumerated admissible output set",
+   text="One corrupted party (every party, as evaluator and garbler, n in {2,3}) runs the real engine while the adversary alters each message it sends (every tree-mutation class at sampled positions; single recipient, all recipients, persistent) or lies consistently through taps; every case repeated with fresh coins. An honest Ok value outside {f(x_honest,x')} or two honest Ok values no single x' explains is a violation.",
+   note="Detection of coin-dependent breaks is probabilistic per case (repetitions R=3 quick / 6 thorough). Adaptive multi-message strategies beyond the enumerated families, more than one corrupted party and n>3 are out of reach."),
  "C08": dict(level="fault_enumeration", ref="DESIGN.md §3 C08",
    technique="runtime monitoring with fault injection: adversarial channel rewrites/drops messages or crashes the peer; outcome, exact deadlock detection and counting allocator observed per execution (sharded sub-processes)",
    text="For every message a corrupted party sends in the fault configurations (n=2 complete, n=3 sampled in quick / complete in thorough) the message is replaced by every byte-level class and every structure-aware mutation class of its decoded tree, or the peer vanishes after it (both send-to-dead semantics). Each honest party must end in Ok or Err: a caught panic, an exact 'no runnable task' state, a single allocation request above the bound or a process abort is a violation.",
